@@ -342,10 +342,24 @@ func main() {
 	swg.Wait()
 	// Large/odd-shape family: long thin and wide arrays, a power-of-two square, empty sides
 	famCalls := 0
-	for _, sh := range [][2]int{{1, 17}, {17, 1}, {16, 16}, {33, 7}, {7, 33}, {0, 9}, {9, 0}, {2, 64}, {64, 2}} {
+	for _, sh := range [][2]int{{1, 17}, {17, 1}, {16, 16}, {33, 7}, {7, 33}, {0, 9}, {9, 0}, {2, 64}, {64, 2}, {65, 64}, {100, 100}, {4097, 1}, {1, 4097}, {3, 1400}, {1400, 3}, {129, 129}} {
 		w, h := sh[0], sh[1]
-		a, g := fresh(w, h)
 		shape := map[string]any{"w": w, "h": h, "family": "odd-shapes"}
+		{
+			famCalls++
+			f := arrays.New2DFilled(w, h, 9)
+			gf := make(grid, h)
+			for y := range gf {
+				gf[y] = make([]int, w)
+				for x := range gf[y] {
+					gf[y][x] = 9
+				}
+			}
+			if d := diff(f, gf, w, h); d != "" {
+				e.Fail("New2DFilled", shape, "New2DFilled(%d,%d,9): %s", w, h, d)
+			}
+		}
+		a, g := fresh(w, h)
 		if d := diff(a, g, w, h); d != "" {
 			e.Fail("Set|aliasing", shape, "%dx%d array after setting every cell: %s", w, h, d)
 			continue
